@@ -8,6 +8,7 @@ From Coq Require Import List Arith Bool ZArith QArith Permutation Reals.
 From TK Require Import QuadTree_Model QuadTree_Spec QuadTree_SpecExec QuadTree_Proof_Base
                        QuadTree_Proof_Insert QuadTree_Proof_Main QuadTree_Proof_Forces
                        QuadTree_Proof_Fuel QuadTree_Proof_Spec QuadTree_Proof_Exec
+                       QuadTree_Proof_Observers QuadTree_Proof_Order
                        QuadTree_Proof_Final QuadTree_Proof_Sqrt.
 Import ListNotations.
 Local Open Scope Q_scope.
@@ -100,6 +101,41 @@ Example order_independent_nonvacuous :
   (exists t, fill_order true 6 ex_data ex_order (init ex_root) = Done true t) /\
   (exists t, fill_order true 6 ex_data ex_order' (init ex_root) = Done true t).
 Proof. exact (conj ex_perm (conj ex_in_root (conj ex_builds0 ex_builds'))). Qed.
+
+(* 4a. the WHOLE tree is independent of the insertion order: same shape, same boxes, same cum_size in every
+       cell, equal centres of mass, same multiplicity and a coincident stored index in every leaf (teq) *)
+Theorem order_independent_tree : forall fuel1 fuel2 data order1 order2 root ok1 ok2 t1 t2,
+  Permutation order1 order2 ->
+  in_root data root order1 ->
+  fill_order true fuel1 data order1 (init root) = Done ok1 t1 ->
+  fill_order true fuel2 data order2 (init root) = Done ok2 t2 ->
+  teq data t1 t2.
+Proof. exact order_independent_tree_final. Qed.
+Print Assumptions order_independent_tree.
+
+(* 4b. the public observers: isCorrect() is true; getAllIndices() lists pairwise different inserted indices,
+       exactly one for every class of coincident inserted points *)
+Theorem observers : forall fuel data order root ok t,
+  in_root data root order ->
+  fill_order true fuel data order (init root) = Done ok t ->
+  is_correct data t = true /\
+  NoDup (all_indices t) /\ incl (all_indices t) order /\
+  (forall i, In i order -> exists j, In j (all_indices t) /\ coinc data i j) /\
+  (forall i j j', In i order -> In j (all_indices t) -> In j' (all_indices t) ->
+                  coinc data i j -> coinc data i j' -> j = j').
+Proof. exact observers_final. Qed.
+Print Assumptions observers.
+
+(* 4c. the mean-centred root box of QuadTree(Y, N) (what tsne.hpp constructs) contains all N points, for
+       every slack >= 0 (the code adds 1e-5): the hypothesis in_root of the theorems above holds for it *)
+Theorem auto_root_in_root_box : forall slack data N c,
+  0 <= slack -> (N <= length data)%nat ->
+  auto_root slack data N = Some c -> in_root data c (seq 0 N).
+Proof. exact auto_root_in_root. Qed.
+Print Assumptions auto_root_in_root_box.
+Example auto_root_nonvacuous :
+  exists c, auto_root (1 # 100000) ex_data 5 = Some c /\ (5 <= length ex_data)%nat.
+Proof. exact ex_auto_root. Qed.
 
 (* 5. theta = 0, no coincident points: computeNonEdgeForces adds exactly the all-pairs sums
       neg_f += sum_{j<>i} q_ij^2 (y_i - y_j),  sum_Q += sum_{j<>i} q_ij,  q_ij = 1/(1+|y_i-y_j|^2) *)
